@@ -17,7 +17,7 @@ ASSUMPTIONS = ["the C01-C09 case generators and normalisers (values, row lengths
                "the configuration is switched through the public ViewBase.set_dtype before any object of the case exists and restored afterwards"]
 REQUIRED_FEATURES = ["stream_C01", "stream_C02", "stream_C03", "stream_C04", "stream_C05", "stream_C07", "stream_C08", "stream_C09", "refusals_compared", "named_cases"]
 BOUNDS = {"quick": "C01: LV(3,3)+numpy round trip; C02: LV(2,2), three-row arrays with rows <= 1 and two more, full quick grammar; C03: LV(2,2) + 3 three-row arrays; C04: dtype1 in {int64,float32}, LV(2,2) + 4 three-row shapes; "
-                   "C05, C07, C09: LV(3,3); C08: its complete quick domain",
+                   "C05, C07, C09: LV(3,3); C08: its complete quick domain; element dtypes of every ragged result compared; 64 / 32 / 64-again; six named large cases (50 000 rows, bounds 2**31-1 and 2**40)",
           "thorough": "the complete quick-tier streams of C01-C09"}
 STREAMS = ["C01", "C02", "C03", "C04", "C05", "C07", "C08", "C09"]
 
